@@ -502,8 +502,6 @@ def h_concurrent(c, chain='DN', shapes=('c', 'c'), dirspec=None, staggered=False
             differ = Not(sstr.eq(chosen[i], chosen[j])) if c.symbolic else chosen[i] != chosen[j]
             c.check(differ, 'concurrent_paths_distinct', sig=[chain, len(transfers), mode],
                     info={'downloads': [i, j]})
-        # nothing was created outside the chosen paths
-        c.check(len(env.opened) == len(transfers), 'one_file_per_download', sig=[chain])
     finally:
         if loop is not None:
             loop.cleanup()
@@ -621,6 +619,7 @@ def _validate_fs_model():
 
 
 ALL_CHAINS = ['DN', 'DKN', 'KDN', 'DNK', 'KND', 'NDK', 'NKD', 'D', 'DK', 'KD']
+DUP_CHAINS = [ch for ch in ALL_CHAINS if 'N' in ch]
 
 
 def jobs(tier):
@@ -630,49 +629,54 @@ def jobs(tier):
     def add(harness, fn, requires=('chosen',), **params):
         out.append({'harness': harness, 'fn': fn, 'params': params, 'requires': list(requires)})
 
-    # (a) containment / regular name: free-form remote paths, every chain
+    # (a) containment / regular name: free-form remote paths (every character any of Σ), every chain
     for chain in ALL_CHAINS:
         for n in range(0, (5 if q else 8) + 1):
             add('name', h_name, requires=['chosen'] if n >= 1 else [], chain=chain, shape='x' * n, dirspec=None)
     # longer structured paths: up to 4 components, 1..2 separator characters between them, alias / drive prefixes
-    struct = ['cc', 'csc', 'ccscc', 'cssccsc', 'scscsc', 'ccsccscc', '@@csccsc', 'c:scsc', 'csc:scc']
+    struct = ['ccscc', 'cssccsc', 'scscsc', '@@csccsc', 'c:scsc', 'csc:scc']
     if not q:
-        struct += ['ccsscssccscc', 'cscscscsc', '@@ccsccssccscc', 'ccscsccs', 'sscscc']
+        struct += ['cc', 'csc', 'ccsccscc', 'ccsscssccscc', 'cscscscsc', '@@ccsccssccscc', 'ccscsccs', 'sscscc', 'cccccsccccc']
     for chain in ALL_CHAINS:
         for sh in struct:
             add('name', h_name, chain=chain, shape=sh, dirspec=None)
-    # (b) freshness: rich directory contents around the candidate name
-    dirspecs = [
-        {'root': ['S']}, {'root': ['S', 'N1']}, {'root': ['N1']}, {'root': ['S', 'N1', 'N1']}, {'root': ['S', 'N2']},
-        {'root': ['S', 'N1', 'N1+1']}, {'root': ['S', 'N1', 'N2']},
-    ]
+    # (b) freshness: directory contents shaped around the candidate name (all their characters symbolic)
+    specs = [['S'], ['N1'], ['S', 'N1'], ['S', 'N1', 'N1'], ['S', 'N2'], ['S', 'N1', 'N1+1'], ['S', 'N1', 'N2']]
+    for sh in (['c', 'cc', 'ccc'] if q else ['c', 'cc', 'ccc', 'cccc']):
+        for sp in specs:
+            if q and sh == 'ccc' and sp == ['S', 'N1', 'N2']:
+                continue
+            add('name', h_name, chain='DN', shape=sh, dirspec={'root': sp})
+    for chain in ['DKN', 'KDN']:
+        for sh in (['cc'] if q else ['c', 'cc', 'ccc']):
+            for sp in ([['S', 'N1'], ['S', 'N1', 'N1']] if q else specs):
+                add('name', h_name, chain=chain, shape=sh, dirspec={'root': sp})
     if not q:
-        dirspecs += [{'root': ['S', 'N1', 'N1', 'N1']}, {'root': ['S', 'N1', 'N1', 'N1'], 'order': 'rev'}, {'root': ['S', 'N2', 'N1', 'N1+1']},
-                     {'root': ['S', 'N1', 'N2', 'N2'], 'order': 'rev'}, {'root': ['S', 'F1', 'N1']}, {'root': ['S', 'N1', 'N1+1', 'N1+1']}]
-    fshapes = ['c', 'cc', 'ccc'] if q else ['c', 'cc', 'ccc', 'cccc']
-    for chain in ['DN', 'DKN', 'KDN']:
-        for sh in fshapes:
-            for ds in dirspecs:
-                add('name', h_name, chain=chain, shape=sh, dirspec=ds)
-    # with a kept directory: the same contents in the download directory and in the sub-directory
-    subspecs = [{'root': ['S'], 'sub': ['S']}, {'root': ['S', 'N1'], 'sub': ['S', 'N1']}, {'root': [], 'sub': ['S', 'N1', 'N1']}]
-    if not q:
-        subspecs += [{'root': ['S', 'N1', 'N1'], 'sub': ['S', 'N1', 'N1']}, {'root': ['N1'], 'sub': ['S', 'N2', 'N1+1']}]
-    for chain in ALL_CHAINS:
-        if 'N' not in chain:
-            continue
+        for sh in ['c', 'cc', 'ccc']:
+            for ds in [{'root': ['S', 'N1', 'N1', 'N1']}, {'root': ['S', 'N1', 'N1', 'N1'], 'order': 'rev'}, {'root': ['S', 'N2', 'N1', 'N1+1']},
+                       {'root': ['S', 'N1', 'N2', 'N2'], 'order': 'rev'}, {'root': ['S', 'F1', 'N1']}, {'root': ['S', 'N1', 'N1+1', 'N1+1']},
+                       {'root': ['S', 'N1', 'N1'], 'order': 'rev'}, {'root': ['S', 'N1', 'N2'], 'order': 'rev'}]:
+                add('name', h_name, chain='DN', shape=sh, dirspec=ds)
+    # with a kept directory: contents in the download directory and in a sub-directory whose name is symbolic too
+    for chain in DUP_CHAINS:
         for sh in (['cscc'] if q else ['cscc', 'ccsc', 'cscsccc']):
-            for ds in subspecs:
-                add('name', h_name, chain=chain, shape=sh, dirspec=ds)
-    # free-form remote paths against an existing equally long name (every chain with a duplicate strategy)
-    for chain in ALL_CHAINS:
-        if 'N' not in chain:
-            continue
-        for n in range(1, (4 if q else 6) + 1):
+            add('name', h_name, chain=chain, shape=sh, dirspec={'root': ['S'], 'sub': ['S']})
+            if not q or chain in ('DKN', 'KDN', 'DNK'):
+                add('name', h_name, chain=chain, shape=sh, dirspec={'root': ['S', 'N1'], 'sub': ['S', 'N1']})
+    for chain in ['DKN', 'KDN']:
+        for sh in (['cscc'] if q else ['cscc', 'ccsccc']):
+            add('name', h_name, chain=chain, shape=sh, dirspec={'root': [], 'sub': ['S', 'N1', 'N1']})
+            if not q:
+                add('name', h_name, chain=chain, shape=sh, dirspec={'root': ['S', 'N1', 'N1'], 'sub': ['S', 'N1', 'N1']})
+                add('name', h_name, chain=chain, shape=sh, dirspec={'root': ['N1'], 'sub': ['S', 'N2', 'N1+1']})
+    # free-form remote paths against an existing equally long name
+    for chain in DUP_CHAINS:
+        for n in range(1, (3 if q else 6) + 1):
             add('name', h_name, chain=chain, shape='x' * n, dirspec={'root': ['S'], 'sub': ['S']})
     # (c) concurrent downloads
     for chain in (['DN', 'DKN'] if q else ['DN', 'DKN', 'KDN']):
-        for shapes in ([['c', 'c'], ['cscc', 'cscc']] if q else [['c', 'c'], ['cc', 'cc'], ['cscc', 'cscc'], ['xx', 'xx']]):
+        shape_sets = [['c', 'c'], ['cscc', 'cscc']] if q else [['c', 'c'], ['cc', 'cc'], ['cscc', 'cscc'], ['xx', 'xx'], ['xxx', 'xxx']]
+        for shapes in shape_sets:
             for stag in (False, True):
                 add('concurrent', h_concurrent, requires=['all_started'], chain=chain, shapes=shapes, dirspec=None, staggered=stag)
         add('concurrent', h_concurrent, requires=['all_started'], chain=chain, shapes=['c', 'c'], dirspec={'root': ['S', 'N1']}, staggered=False)
